@@ -6,3 +6,8 @@ open Femio.C17
 #print axioms C17_invert_strain
 #print axioms C17_lte_roundtrip
 #print axioms C17_align_nnz
+#print axioms C17_diag_shortcut
+#print axioms C17_diag_shortcut_rows_selfinverse
+#print axioms C17_diag_shortcut_rows_counterexample
+#print axioms C17_flat_key_order
+#print axioms C17_flat_key_wrap_counterexample
